@@ -45,12 +45,27 @@ Definition header (v : variant) (len : N) : bytes :=
 (* the bytes the two conn.Write calls of WriteMsg put on the wire *)
 Definition frame (v : variant) (msg : bytes) : bytes := header v (blen msg) ++ msg.
 
-(* WriteMsg as written: abridged refuses lengths that are not a multiple of 4 (ErrNotMultiple),
-   intermediate has no check.  Result = bytes written. *)
-Definition write_msg (v : variant) (msg : bytes) : outcome bytes :=
+(* WriteMsg, the decision and the header from the length alone (after patches/C08 0002: a message the
+   length field cannot hold is refused; the pinned tree wrote byte(l), byte(l>>8), byte(l>>16) of a word
+   count >= 2^24 resp. uint32(len) of a length >= 2^32, i.e. a header announcing a DIFFERENT length,
+   followed by the whole message).  Abridged also refuses lengths that are not a multiple of 4
+   (ErrNotMultiple); intermediate has no alignment check. *)
+Definition write_header (v : variant) (len : N) : outcome bytes :=
   match v with
-  | Abridged => if blen msg mod 4 =? 0 then Ok (frame Abridged msg) else Err
-  | Intermediate => Ok (frame Intermediate msg)
+  | Abridged =>
+    if negb (len mod 4 =? 0) then Err
+    else if 16777216 <=? len / 4 then Err
+    else Ok (abridged_header len)
+  | Intermediate =>
+    if 4294967296 <=? len then Err else Ok (intermediate_header len)
+  end.
+
+(* Result = bytes written by the two conn.Write calls. *)
+Definition write_msg (v : variant) (msg : bytes) : outcome bytes :=
+  match write_header v (blen msg) with
+  | Ok h => Ok (h ++ msg)
+  | Err => Err
+  | Panic => Panic
   end.
 
 (* what a writer that creates the mode and sends [msgs] puts on the wire *)
